@@ -577,6 +577,19 @@ func (c *conn) Close() error {""")]),
 			log.Printf("p9p: transport: error setting read deadline on %v: %v", ch.conn.RemoteAddr(), err)
 		}
 	}""")]),
+ ("c08-clunk-error-dropped", "C08", [("sfilesys.go", """func (sess *session) Clunk(ctx context.Context, fid Fid) error {
+	return sess.delRef(ctx, fid, false)
+}""", """func (sess *session) Clunk(ctx context.Context, fid Fid) error {
+	sess.delRef(ctx, fid, false)
+	return nil
+}""")]),
+ ("c13-clunk-error-dropped", "C13", [("sfilesys.go", """func (sess *session) Clunk(ctx context.Context, fid Fid) error {
+	return sess.delRef(ctx, fid, false)
+}""", """func (sess *session) Clunk(ctx context.Context, fid Fid) error {
+	sess.delRef(ctx, fid, false)
+	return nil
+}""")]),
+ ("c20-cent-clunk-error-dropped", "C20", [("cfilesys.go", "	return ent.fs.session.Clunk(ctx, ent.fid)", "	ent.fs.session.Clunk(ctx, ent.fid)\n	return nil")]),
  ("c05-no-notag-skip", "C05", [("transport.go", """		hint++
 		if hint == NOTAG {
 			hint = 0
